@@ -378,3 +378,45 @@ def c14_r8(ctx):
         if not ok:
             detail = "the offset is computed from the raw `%s`, not from the clamped value: %s" % (pn, detail)
     ctx.ob(rp, ok, "offset and length are computed from the clamped self.pagenum", detail=detail)
+
+
+PER_SEGMENT_HOOKS = ("set_searcher", "set_subsearcher")
+
+
+@rule("C14", "R9", "K1", "per-segment state is rebuilt for every segment, never kept because it looks big enough",
+      min_instances=8, also=("C06",),
+      clause="In every set_searcher()/set_subsearcher() (called once per segment by the collector) no assignment to self.X sits under a "
+             "test that reads self.X: whether the state of the previous segment is replaced must not depend on that state "
+             "(a buffer re-allocated only when too small keeps the previous segment's entries).")
+def c14_r9(ctx):
+    prog = ctx.prog
+    n = 0
+    for f in prog.functions.values():
+        if f.name not in PER_SEGMENT_HOOKS or f.cls is None or is_abstract_body(f):
+            continue
+        n += 1
+        ctx.saw(f)
+        bad = []
+
+        def walk(stmts, conds):
+            for st in stmts:
+                if isinstance(st, ast.Assign):
+                    for t in st.targets:
+                        if isinstance(t, ast.Attribute) and isinstance(t.value, ast.Name) and t.value.id == "self":
+                            me = "self." + t.attr
+                            for c in conds:
+                                if any(isinstance(x, ast.Attribute) and norm.canon(x) == me for x in ast.walk(c)):
+                                    bad.append((me, st.lineno, norm.canon(c)))
+                if isinstance(st, (ast.If, ast.While)):
+                    walk(st.body, conds + [st.test])
+                    walk(st.orelse, conds + [st.test])
+                elif isinstance(st, (ast.For, ast.With, ast.Try)):
+                    for fld in ("body", "orelse", "finalbody"):
+                        walk(getattr(st, fld, []) or [], conds)
+                    for h in getattr(st, "handlers", []):
+                        walk(h.body, conds)
+        walk(f.node.body, [])
+        ctx.ob(f, not bad, "no per-segment attribute is re-initialised only under a test of its own old value",
+               detail="; ".join("%s (line %d) under `%s`" % b for b in bad[:3]))
+    if n < 8:
+        raise AnalysisError("only %d per-segment hooks found" % n)
